@@ -296,9 +296,9 @@ func runC14(c *explore.Ctx) {
 					c.Distinct("outcome", explore.Hash64(s.base, s.cfg, kind, strings.Join(names, ",")))
 					if msg != "" {
 						c.Violation(explore.Violation{
-							Key:  fmt.Sprintf("fs=%s base=%s cfg=%s word=%s", kind, s.base, s.cfg, strings.Join(names, " ")),
-							What: fmt.Sprintf("base %s/%s on %s, reads (Get, GetAppend, scan, half-drained iterator) then %s", s.base, s.cfg, kind, msg),
-							Size: depth,
+							Key:    fmt.Sprintf("fs=%s base=%s cfg=%s word=%s", kind, s.base, s.cfg, strings.Join(names, " ")),
+							What:   fmt.Sprintf("base %s/%s on %s, reads (Get, GetAppend, scan, half-drained iterator) then %s", s.base, s.cfg, kind, msg),
+							Size:   depth,
 							Replay: map[string]interface{}{"kind": "slice14", "fs": kind, "base": s.base, "cfg": s.cfg, "word": names, "observed": msg},
 						})
 						return false
